@@ -174,7 +174,7 @@ func (d *Decoder) readTypedMap() (interface{}, error) {
 	d.addDecoderRef(mPtrValue)
 
 	for {
-		key, err := d.ReadData()
+		key, err := d.readData()
 		if err != nil {
 			if err == io.EOF {
 				// EOF error means already read the end flag of map
@@ -183,17 +183,12 @@ func (d *Decoder) readTypedMap() (interface{}, error) {
 			return nil, err
 		}
 
-		//nil map
-		if key == nil {
-			break
-		}
-
-		value, err := d.ReadData()
+		value, err := d.readData()
 		if err != nil {
 			return nil, err
 		}
 		if mType.Kind() == reflect.Map {
-			mValue.SetMapIndex(EnsureRawValue(key), EnsureRawValue(value))
+			setMapIndex(mValue, EnsureRawValue(key), EnsureRawValue(value))
 		} else {
 			fieldName, ok := key.(string)
 			if !ok {
@@ -217,7 +212,7 @@ func (d *Decoder) readUntypedMap() (interface{}, error) {
 
 	//read key and value
 	for {
-		key, err := EnsureInterface(d.ReadData())
+		key, err := EnsureInterface(d.readData())
 		if err != nil {
 			if err == io.EOF {
 				// EOF error means already read the end flag of map
@@ -226,12 +221,7 @@ func (d *Decoder) readUntypedMap() (interface{}, error) {
 			return nil, err
 		}
 
-		// nil map
-		if key == nil {
-			break
-		}
-
-		value, err := EnsureInterface(d.ReadData())
+		value, err := EnsureInterface(d.readData())
 		if err != nil {
 			return nil, err
 		}
@@ -269,7 +259,7 @@ func (d *Decoder) readMap(dest reflect.Value) error {
 
 	//read key and value
 	for {
-		key, err := d.ReadData()
+		key, err := d.readData()
 		if err != nil {
 			if err == io.EOF {
 				// EOF error means already read the end flag of map
@@ -279,16 +269,33 @@ func (d *Decoder) readMap(dest reflect.Value) error {
 			}
 		}
 
-		if key == nil {
-			break
-		}
-
-		vl, err := d.ReadData()
+		vl, err := d.readData()
 		if err != nil {
 			return err
 		}
-		mPtrValue.Elem().SetMapIndex(EnsureRawValue(key), EnsureRawValue(vl))
+		setMapIndex(mPtrValue.Elem(), EnsureRawValue(key), EnsureRawValue(vl))
 	}
 	SetValue(dest, mPtrValue)
 	return nil
+}
+
+// setMapIndex stores a decoded entry in a map, converting key and value to the map's key and element types.
+// A null key or value is stored as the zero value of its type (reflect's SetMapIndex would delete the entry).
+func setMapIndex(m, key, value reflect.Value) {
+	k := reflect.New(m.Type().Key()).Elem()
+	setDecoded(k, key)
+	v := reflect.New(m.Type().Elem()).Elem()
+	setDecoded(v, value)
+	m.SetMapIndex(k, v)
+}
+
+func setDecoded(dest, v reflect.Value) {
+	if dest.Kind() == reflect.Interface {
+		// keep the decoded value as it is (a pointer stays a pointer)
+		if v.IsValid() {
+			dest.Set(v)
+		}
+		return
+	}
+	SetValue(dest, v)
 }
